@@ -38,7 +38,7 @@ def cond_blocks(func):
     for b in func.cfg['blocks']:
         if b.get('cond', -1) is None or b.get('cond', -1) < 0 or len(b['s']) != 2:
             continue
-        c = func.node(b['cond'])
+        c = pathflow.effective_cond(func, b)
         if c is None:
             continue
         neg = False
